@@ -4,7 +4,8 @@
 //   exe --list                         one line per variant:  <name> <K|Q|S> <cfg ints,comma separated> <ops,comma separated> <traits>
 //   exe <variant> <sequence file>      runs every sequence of the file on a fresh container of that variant and
 //                                      prints the canonical output lines documented in ocaml/c20_main.ml
-//   environment C20_HP="<hazard ptrs>,<max threads>,<max retired>,<scan 0 classic|1 inplace>"  HP singleton parameters
+//   environment C20_HP="<extra hazard ptrs>,<max threads>,<max retired>,<scan 0 classic|1 inplace>"  HP singleton parameters
+//               (hazard pointer count = what the container requires + what the harness holds + extra)
 //               C20_DHP="<initial pool size>"
 //
 // Sequence file: one sequence per line, "<id> <K|Q|S> <cfg ints> | op op ...", see ocaml/c20_main.ml.
@@ -146,9 +147,11 @@ namespace c20 {
 
     struct EnvHP {
         typedef cds::gc::HP gc; static const gc_kind kind = GK_HP; static char const* name() { return "HP"; }
-        static void setup() {
-            std::vector<long> p = env_ints( "C20_HP", { 24, 4, 32, 1 } );
-            cds::gc::hp::GarbageCollector::Construct( (size_t) p[0], (size_t) p[1], (size_t) p[2],
+        // need: hazard pointers the container itself requires (c_nHazardPtrCount) plus those the harness holds
+        // (guarded_ptr, two iterators); C20_HP gives the number of EXTRA hazard pointers on top of that
+        static void setup( size_t need ) {
+            std::vector<long> p = env_ints( "C20_HP", { 4, 4, 0, 1 } );
+            cds::gc::hp::GarbageCollector::Construct( need + (size_t) p[0], (size_t) p[1], (size_t) p[2],
                 p[3] ? cds::gc::hp::details::inplace : cds::gc::hp::details::classic );
         }
         static void teardown() { cds::gc::hp::GarbageCollector::Destruct( true ); }
@@ -156,7 +159,7 @@ namespace c20 {
     };
     struct EnvDHP {
         typedef cds::gc::DHP gc; static const gc_kind kind = GK_HP; static char const* name() { return "DHP"; }
-        static void setup() {
+        static void setup( size_t ) {
             std::vector<long> p = env_ints( "C20_DHP", { 16 } );
             cds::gc::dhp::GarbageCollector::Construct( (size_t) p[0] );
         }
@@ -166,7 +169,7 @@ namespace c20 {
     template <typename RCU> struct rcu_name;
     template <typename RCU> struct EnvRCU {
         typedef cds::urcu::gc<RCU> gc; static const gc_kind kind = GK_RCU; static char const* name() { return rcu_name<RCU>::get(); }
-        static void setup() { RCU::Construct(); }
+        static void setup( size_t ) { RCU::Construct(); }
         static void teardown() { RCU::Destruct( true ); }
         static void quiesce() { gc::force_dispose(); }
     };
@@ -186,12 +189,16 @@ namespace c20 {
     typedef EnvRCU<rcu_gpt> EnvGPT;
     struct EnvNogc {
         typedef cds::gc::nogc gc; static const gc_kind kind = GK_NOGC; static char const* name() { return "nogc"; }
-        static void setup() {} static void teardown() {} static void quiesce() {}
+        static void setup( size_t ) {} static void teardown() {} static void quiesce() {}
     };
     struct EnvNone {   // containers that use no reclamation scheme (striped, cuckoo, flat combining, bounded queues)
         struct gc {}; static const gc_kind kind = GK_NONE; static char const* name() { return "-"; }
-        static void setup() {} static void teardown() {} static void quiesce() {}
+        static void setup( size_t ) {} static void teardown() {} static void quiesce() {}
     };
+
+    // hazard pointers a container requires (HP-like schemes only)
+    template <typename C, gc_kind K> struct hp_need_of { static size_t get() { return 0; } };
+    template <typename C> struct hp_need_of<C, GK_HP> { static size_t get() { return C::c_nHazardPtrCount + 4; } };
 
     // ------------------------------------------------------------------------------------------
     // variant registry
@@ -299,7 +306,7 @@ namespace c20 {
     {
         Variant v;
         v.name = name; v.kind = kind; v.cfg = cfg; v.ops = Adapter::ops(); v.traits = std::string( "gc=" ) + Env::name() + ";" + traits;
-        v.setup = [] { Env::setup(); };
+        v.setup = [] { Env::setup( Adapter::hp_need()); };
         v.teardown = [] { Env::teardown(); };
         return v;
     }
